@@ -36,6 +36,8 @@ HARNESS = {
                  'assume': 'true', 'call': 'check_c13_iter(&buf, count, 0, little, false)', 'unwind': 8},
     'c13_def': {'args': [('buf', 'u8x40'), ('count', 'u8'), ('little', 'bool')], 'bound': 'a 40-byte section, iteration from offset 0, count < 256: first record + its first auxiliary record + the step',
                 'assume': 'true', 'call': 'check_c13_iter(&buf, count, 0, little, true)', 'unwind': 8},
+    'c13_req': {'args': [('versym', 'u8x4'), ('need', 'u8x32'), ('strs', 'u8x6'), ('sym_idx', 'u8'), ('little', 'bool')], 'bound': 'one VerNeed record with one auxiliary record at offset 16, 2 versym entries, the fixed string table "\\0a\\0bc\\0"',
+                'assume': 'strs == [0u8, 97, 0, 98, 99, 0]', 'call': 'check_c13_req(&versym, &need, &strs, sym_idx, little)', 'unwind': 8},
     'c10': {'args': [('ident', 'u8x16')], 'bound': 'none (all 16-byte idents)', 'assume': 'true', 'call': 'check_c10(&ident)', 'unwind': 6},
     'hash': {'args': [('buf', 'u8x5'), ('len', 'usize')], 'bound': 'name <= 5 bytes', 'assume': 'len <= 5', 'call': 'check_hash(&buf[..len])', 'unwind': 7},
 }
@@ -198,6 +200,7 @@ PAIRING = [
     (r'^(C12\.sysv_hash|C11\.gnu_hash|proof:hash::sysv_hash|proof:hash::gnu_hash)', lambda m: 'hash'),
     (r'^C14\.(note|iter)\.', lambda m: ['c14_a4', 'c14_a8', 'c14_a3']),
     (r'^C03\.(section_range|segment_range|section_data|segment_data)\.', lambda m: 'c03_range'),
+    (r'^C13\.get_requirement\.', lambda m: 'c13_req'),
     (r'^C1[36]\.VerNeedIterator\.next\.', lambda m: 'c13_need'),
     (r'^C1[36]\.VerDefIterator\.next\.', lambda m: 'c13_def'),
     (r'^C02\.parse_at\.[a-z_]+@ParseAt for (\w+)::parse_at$', lambda m: 'c02_' + m.group(1).lower()),
